@@ -415,10 +415,20 @@ static URL_MAX_LEN: usize = 128;
     PartialEq,
     PartialOrd,
     serde::Serialize,
-    serde::Deserialize,
     JsonSchema,
 )]
 pub struct URL(String);
+
+// the JSON form goes through the validating constructor, like the CBOR form
+impl<'de> serde::de::Deserialize<'de> for URL {
+    fn deserialize<D>(deserializer: D) -> Result<Self, D::Error>
+    where
+        D: serde::de::Deserializer<'de>,
+    {
+        let s = <String as serde::de::Deserialize>::deserialize(deserializer)?;
+        Self::new_impl(s).map_err(|e| serde::de::Error::custom(e.to_string()))
+    }
+}
 
 impl_to_from!(URL);
 
@@ -460,10 +470,20 @@ static DNS_NAME_MAX_LEN: usize = 128;
     PartialEq,
     PartialOrd,
     serde::Serialize,
-    serde::Deserialize,
     JsonSchema,
 )]
 pub struct DNSRecordAorAAAA(String);
+
+// the JSON form goes through the validating constructor, like the CBOR form
+impl<'de> serde::de::Deserialize<'de> for DNSRecordAorAAAA {
+    fn deserialize<D>(deserializer: D) -> Result<Self, D::Error>
+    where
+        D: serde::de::Deserializer<'de>,
+    {
+        let s = <String as serde::de::Deserialize>::deserialize(deserializer)?;
+        Self::new_impl(s).map_err(|e| serde::de::Error::custom(e.to_string()))
+    }
+}
 
 impl_to_from!(DNSRecordAorAAAA);
 
@@ -503,10 +523,20 @@ impl DNSRecordAorAAAA {
     PartialEq,
     PartialOrd,
     serde::Serialize,
-    serde::Deserialize,
     JsonSchema,
 )]
 pub struct DNSRecordSRV(String);
+
+// the JSON form goes through the validating constructor, like the CBOR form
+impl<'de> serde::de::Deserialize<'de> for DNSRecordSRV {
+    fn deserialize<D>(deserializer: D) -> Result<Self, D::Error>
+    where
+        D: serde::de::Deserializer<'de>,
+    {
+        let s = <String as serde::de::Deserialize>::deserialize(deserializer)?;
+        Self::new_impl(s).map_err(|e| serde::de::Error::custom(e.to_string()))
+    }
+}
 
 impl_to_from!(DNSRecordSRV);
 
